@@ -1,5 +1,6 @@
 import Guard.Model.TestReport
 import Guard.Properties.C06
+import Guard.Gen.ExitCodes
 /-
   C16 — `cfn-guard test` agrees with `cfn-guard validate`.
 -/
@@ -175,5 +176,14 @@ example : (getStatusResult .pass [.skip, .pass, .fail]).1 = some .pass := by dec
 example : (getStatusResult .skip [.skip, .skip]).1 = some .skip := by decide
 example : (getStatusResult .skip [.skip, .pass]).1 = none := by decide
 example : (getStatusResult .fail [.skip, .pass]) = (none, [.skip, .pass]) := by decide
+
+/-- **every rendering of a `test` run reads the test files alike**: the plain reporter and the structured one
+    (json / yaml / junit) try the same readers in the same order on a test-specification file, YAML first (which
+    types scalars like the loader of `validate` does), JSON only as the fallback. Generated from the two reporter
+    sources on every run: changing one of them alone, or the order, breaks this obligation -/
+theorem C16_spec_readers_alike :
+    Gen.testSpecLoaders.map (·.1) = ["generic.rs", "structured.rs"] ∧
+    (Gen.testSpecLoaders.all fun e => e.2 == ["serde_yaml", "serde_json"]) = true := by
+  decide
 
 end Guard.C16
